@@ -93,7 +93,7 @@ def main():
             continue
         n = 0
         for i in sub.run.instances:
-            if not i.ok and i.kind in ("floor", "anchor", "control") and i.rule.startswith(pack):
+            if not i.ok and i.kind in ("floor", "anchor", "control") and i.rule.startswith(pack) and i.rule != pack:
                 # the source pack could not evaluate all of its rules (missing anchor, fewer sites than counted): the
                 # shared necessary conditions are then undecided here as well - fail closed instead of passing on less
                 i.reason = "%s [shared rules from the %s pack are incomplete]" % (i.reason, pack)
